@@ -1,22 +1,25 @@
-import Sucds.Proofs.GenEFBuilder
-/-! # C16 over the definitions *generated from the Rust sources* (`src/mii_sequences/elias_fano.rs`) — builder part
+import Sucds.Proofs.C04GenAux
+/-! # C16 over the definitions *generated from the Rust sources* (`src/mii_sequences/elias_fano.rs`)
 
-`Props/C16.lean` with the model builder replaced by the generated `GenFn.EliasFanoBuilder.{new, push, extend,
-universe, num_vals}`; a push history is run by `GenEq.genRun` (a fold calling the generated `push`, see `genRun_def`),
-`Result<()>` verdicts are `RS.Res Unit` (`GenEq.resU true = Ok(())`, `resU false = Err`).
+`Props/C16.lean` with every model function replaced by the generated one: `GenFn.EliasFanoBuilder.{new, push, extend,
+universe, num_vals, build}` and, for the read-back, `GenFn.EliasFano.{enable_rank, len, universe, select}`. A push
+history is run by `GenEq.genRun` (a fold calling the generated `push`, see `genRun_def`); `Result<()>` verdicts are
+`RS.Res Unit` (`GenEq.resU true = Ok(())`, `resU false = Err`).
 
-**Partial**: the `build()` clause of C16 (the built `EliasFano` answers `len`, `universe`, `select(k)` with the
-accepted values) is *not* stated over generated functions: it needs `GenFn.EliasFanoBuilder.build = EF.ofBuilder`
-(i.e. `GenFn.DArray.from_bits` / `GenFn.DArrayIndex.new` against the model's `DArray` construction) and
-`GenFn.EliasFano.select = EF.select` (i.e. `GenFn.DArray.select`), and neither equivalence has been proved yet
-(`Sucds/Proofs/Gen*.lean` has no theorem about them). What is proved here instead: the final generated builder
-`Holds` exactly the accepted values (`EFB.Holds`: sortedness, bounds, the unary-coded high bits and the low bits),
-which is the whole input of `build()`; `readback_via_model` below states the read-back through the *model's*
-`build`/`select` applied to the builder produced by the *generated* functions.
+Clauses, as in `Props/C16.lean` (statement and side theorems there): `new(u, 0)` is rejected; a rejected push returns
+`Err` and the builder unchanged; for every `u < 2^64`, `m ≥ 1` and **every** push history: no panic, the verdicts are
+the greedy acceptance, the final builder holds exactly the accepted values (`EFB.Holds`), pushing an unacceptable value
+is a no-op, `extend` is the push loop stopped at the first rejected item, and `build()` — of the builder after the
+history, and of the builder after a further `extend` — yields exactly the accepted values with universe `u`, read back
+through `len`, `universe` and `select` (as built, and after `enable_rank()`; `ReadsBack`). Every other query of the
+built sequence is in `Props/C04Gen.lean`.
 
-Hypothesis added: `m + (u >> low_len) + 2 + 64 < 2^64` with `low_len = GenEq.lowLenOf u m = ⌊log2 (u / m)⌋` — the
-length of the high-bit vector allocated by `new`, rounded up to words, is a `usize` (the code computes it with checked
-additions; the model uses unbounded `Nat`). Since `u >> low_len < 2 * m`, `3 * m + 66 < 2^64` suffices (`holds_simple`). -/
+Hypotheses added, with `low_len = GenEq.lowLenOf u m = ⌊log2 (u / m)⌋`:
+* builder clauses: `m + (u >> low_len) + 2 + 64 < 2^64` — the length of the high-bit vector allocated by `new`,
+  rounded up to words, is a `usize` (checked additions in the code, unbounded `Nat` in the model);
+* `build()` clauses: `m + (u >> low_len) + 2 < 2^63` — that length is below `2^63`, because `DArray` stores bit
+  positions as `isize` (the hypothesis of `C02Gen`). It implies the first bound.
+Since `u >> low_len < 2 * m`, `3 * m + 2 < 2^63` implies both (`holds_simple`). -/
 namespace Sucds.C16Gen
 open Sucds Sucds.Spec Sucds.EFB Sucds.EFQ
 open Sucds.GenEq (genRun resU lowLenOf)
@@ -32,7 +35,16 @@ theorem genRun_def (c : Cfg) (b : EFB) (v : Nat) (vs : List Nat) :
 def Acceptable (u m : Nat) (acc : List Nat) (v : Nat) : Prop := acc.getLast?.getD 0 ≤ v ∧ v < u ∧ acc.length < m
 instance (u m : Nat) (acc : List Nat) (v : Nat) : Decidable (Acceptable u m acc v) := by unfold Acceptable; infer_instance
 
-def Statement_partial : Prop :=
+/-- `build()` of the builder `b` succeeds and yields exactly `xs` with universe `u`, read back through `len`,
+    `universe`, `select` — on the sequence as built (`e0`) and after `enable_rank()` (`e`) -/
+def ReadsBack (c : Cfg) (b : EFB) (u : Nat) (xs : List Nat) : Prop :=
+  ∃ e0 e, GenFn.EliasFanoBuilder.build c b = .ok e0 ∧ GenFn.EliasFano.enable_rank c e0 = .ok e ∧
+    GenFn.EliasFano.len e = xs.length ∧ GenFn.EliasFano.universe e = u ∧
+    (∀ k, GenFn.EliasFano.select c e k = .ok xs[k]?) ∧
+    GenFn.EliasFano.len e0 = xs.length ∧ GenFn.EliasFano.universe e0 = u ∧
+    (∀ k, GenFn.EliasFano.select c e0 k = .ok xs[k]?)
+
+def Statement : Prop :=
   -- `new(u, 0)` is rejected
   (∀ (c : Cfg) (u : Nat), GenFn.EliasFanoBuilder.new c u 0 = .ok RS.Res.err) ∧
   -- a rejected push returns `Err` and the builder unchanged (any builder, no hypothesis)
@@ -46,12 +58,15 @@ def Statement_partial : Prop :=
       GenFn.EliasFanoBuilder.universe b' = u ∧ GenFn.EliasFanoBuilder.num_vals b' = m ∧
       -- from there, a push of an unacceptable value is a no-op
       (∀ v, ¬ Acceptable u m (accepted u m [] hist) v → GenFn.EliasFanoBuilder.push c b' v = .ok (b', RS.Res.err)) ∧
+      -- `build()` yields exactly the accepted values with universe `u`
+      (m + (u >>> lowLenOf u m) + 2 < 2^63 → ReadsBack c b' u (accepted u m [] hist)) ∧
       -- and `extend` is the push loop stopped at the first rejected item, keeping the earlier ones
       (∀ vs : List Nat, ∃ b'' n, n ≤ vs.length ∧
         GenFn.EliasFanoBuilder.extend c b' vs = .ok (b'', resU (decide (n = vs.length))) ∧
         Holds b'' (accepted u m [] hist ++ vs.take n) ∧
         GenFn.EliasFanoBuilder.universe b'' = u ∧ GenFn.EliasFanoBuilder.num_vals b'' = m ∧
-        (∀ v, vs[n]? = some v → ¬ Acceptable u m (accepted u m [] hist ++ vs.take n) v)))
+        (∀ v, vs[n]? = some v → ¬ Acceptable u m (accepted u m [] hist ++ vs.take n) v) ∧
+        (m + (u >>> lowLenOf u m) + 2 < 2^63 → ReadsBack c b'' u (accepted u m [] hist ++ vs.take n))))
 
 /-- rejection in terms of the builder's fields = "not acceptable" in terms of what it holds -/
 theorem rejected_iff (b : EFB) (xs : List Nat) (h : Holds b xs) (v : Nat) :
@@ -60,52 +75,43 @@ theorem rejected_iff (b : EFB) (xs : List Nat) (h : Holds b xs) (v : Nat) :
   rw [h.last, h.pos]
   omega
 
-theorem holds : Statement_partial := by
+/-- the read-back of a builder reached by a generated history -/
+theorem readsBack_of_good (c : Cfg) (u m : Nat) (b : EFB) (xs : List Nat) (g : GenEq.EFGood u m b xs) (hu : u < 2^64)
+    (hsz : m + (u >>> lowLenOf u m) + 2 < 2^63) : ReadsBack c b u xs := by
+  obtain ⟨e0, e, k1, k2, _, _, A, _, _, _, k5, k6, k7, _⟩ := GenEq.ef_good_built c c u m b xs g hu hsz
+  exact ⟨e0, e, k1, k2, A.len, A.univ, A.select, k5, k6, k7⟩
+
+theorem holds : Statement := by
   refine ⟨GenEq.gen_new_zero, GenEq.gen_rejected_push_no_effect, ?_⟩
   intro c u m hist hm hu hsz
-  obtain ⟨b0, hn, hh0, hf0, hu0, hm0⟩ := GenEq.gen_new_holds c u m hm hu hsz
-  obtain ⟨b', hr, hh', hf', hu', hm'⟩ := GenEq.gen_run_spec c hist b0 [] hh0 hf0
-  have hu0' : b0.univ = u := hu0
-  have hm0' : b0.numVals = m := hm0
-  rw [hu0'] at hr hh' hu'
-  rw [hm0'] at hr hh' hm'
-  refine ⟨b0, b', hn, hr, hh', hu', hm', fun v hv => ?_, fun vs => ?_⟩
-  · exact GenEq.gen_rejected_push_no_effect c b' v ((rejected_iff b' _ hh' v).2 (by rw [hu', hm']; exact hv))
-  · obtain ⟨b'', n, hn', he, hh'', hu'', hm'', hrej⟩ := GenEq.gen_extend_spec c vs b' _ hh' hf'
-    refine ⟨b'', n, hn', he, hh'', hu''.trans hu', hm''.trans hm', fun v hv => ?_⟩
-    have := (rejected_iff b'' _ hh'' v).1 (hrej v hv)
-    rw [hu''.trans hu', hm''.trans hm'] at this
+  obtain ⟨b0, b', g', hn, hr⟩ := GenEq.ef_hist_good u m hist hm hu hsz
+  have hu' : b'.univ = u := g'.univ
+  have hm' : b'.numVals = m := g'.cap
+  refine ⟨b0, b', hn c, hr c, g'.holds, hu', hm', fun v hv => ?_, fun h63 => readsBack_of_good c u m b' _ g' hu h63,
+    fun vs => ?_⟩
+  · exact GenEq.gen_rejected_push_no_effect c b' v ((rejected_iff b' _ g'.holds v).2 (by rw [hu', hm']; exact hv))
+  · obtain ⟨b'', n, hn', g'', he, hrej⟩ := GenEq.ef_extend_good u m b' _ g' vs
+    have hu'' : b''.univ = u := g''.univ
+    have hm'' : b''.numVals = m := g''.cap
+    refine ⟨b'', n, hn', he c, g''.holds, hu'', hm'', fun v hv => ?_, fun h63 => readsBack_of_good c u m b'' _ g'' hu h63⟩
+    have := (rejected_iff b'' _ g''.holds v).1 (hrej v hv)
+    rw [hu'', hm''] at this
     exact this
 
-/-- the same under the simple size bound `3 * m + 66 < 2^64` -/
-theorem holds_simple (c : Cfg) (u m : Nat) (hist : List Nat) (hm : m ≠ 0) (hu : u < 2^64) (hm3 : 3 * m + 66 < 2^64) :
+/-- the same under the simple size bound `3 * m + 2 < 2^63`: builder facts and read-back of `build()` -/
+theorem holds_simple (c : Cfg) (u m : Nat) (hist : List Nat) (hm : m ≠ 0) (hu : u < 2^64) (hm3 : 3 * m + 2 < 2^63) :
     ∃ b0 b', GenFn.EliasFanoBuilder.new c u m = .ok (RS.Res.ok b0) ∧
       genRun c b0 hist = .ok (b', (verdicts u m [] hist).map resU) ∧ Holds b' (accepted u m [] hist) ∧
-      GenFn.EliasFanoBuilder.universe b' = u ∧ GenFn.EliasFanoBuilder.num_vals b' = m := by
+      GenFn.EliasFanoBuilder.universe b' = u ∧ GenFn.EliasFanoBuilder.num_vals b' = m ∧
+      ReadsBack c b' u (accepted u m [] hist) := by
   have := GenEq.shr_lowLen_lt u m hm
-  obtain ⟨b0, b', h1, h2, h3, h4, h5, _⟩ := holds.2.2 c u m hist hm hu (by omega)
-  exact ⟨b0, b', h1, h2, h3, h4, h5⟩
+  obtain ⟨b0, b', h1, h2, h3, h4, h5, _, h7, _⟩ := holds.2.2 c u m hist hm hu (by omega)
+  exact ⟨b0, b', h1, h2, h3, h4, h5, h7 (by omega)⟩
 
 /-- the verdicts are the greedy acceptance (`C16.verdict_meaning`, a fact about the specification) -/
 theorem verdict_meaning (u m : Nat) (acc : List Nat) (v : Nat) (vs : List Nat) :
     verdicts u m acc (v :: vs) =
       (if Acceptable u m acc v then true :: verdicts u m (acc ++ [v]) vs else false :: verdicts u m acc vs) := rfl
-
-/-- **read-back, through the model's `build`/`select`** (not part of `Statement_partial`: `EF.ofBuilder` and
-    `EF.select` are model functions): the builder produced by the *generated* `new` and `push`es, built by the
-    model, has exactly the accepted values -/
-theorem readback_via_model (c : Cfg) (u m : Nat) (hist : List Nat) (hm : m ≠ 0) (hu : u < 2^64)
-    (hsz : m + (u >>> lowLenOf u m) + 2 + 64 < 2^64) :
-    ∃ b0 b' r, GenFn.EliasFanoBuilder.new c u m = .ok (RS.Res.ok b0) ∧ genRun c b0 hist = .ok (b', r) ∧
-      (EF.ofBuilder c b').len = (accepted u m [] hist).length ∧ (EF.ofBuilder c b').univ = u ∧
-      (∀ k, (EF.ofBuilder c b').select c k = .ok (accepted u m [] hist)[k]?) ∧
-      (∀ k, ((EF.ofBuilder c b').enableRank c).select c k = .ok (accepted u m [] hist)[k]?) := by
-  obtain ⟨b0, b', h1, h2, hh', hub, _⟩ := holds.2.2 c u m hist hm hu hsz
-  have hub' : b'.univ = u := hub
-  have hu' : b'.univ < 2^64 := by rw [hub']; exact hu
-  obtain ⟨_, a2, _⟩ := ranked_queries c b' _ hh' hu' (high_enableRank c b' _ hh')
-  obtain ⟨b1, b2, _⟩ := built_queries c b' _ hh' hu' (high_ofBuilder c b' _ hh')
-  exact ⟨b0, b', _, h1, h2, b1, hub', b2, a2⟩
 
 /-- the generated builder functions are the model's (same value, same panic, every configuration) -/
 theorem generated_eq_model (c : Cfg) (u m : Nat) (hu : u < 2^64) (hsz : m ≠ 0 → m + (u >>> lowLenOf u m) + 2 + 64 < 2^64) :
@@ -114,52 +120,40 @@ theorem generated_eq_model (c : Cfg) (u m : Nat) (hu : u < 2^64) (hsz : m ≠ 0 
       genRun c b hist = (EFB.run b hist).map (fun r => (r.1, r.2.map resU)) ∧
       ∀ b' r, EFB.run b hist = .ok (b', r) → ∀ vs v,
         GenFn.EliasFanoBuilder.extend c b' vs = (EFB.extend b' vs).map GenEq.resB ∧
-        GenFn.EliasFanoBuilder.push c b' v = (b'.push v).map GenEq.resB := by
+        GenFn.EliasFanoBuilder.push c b' v = (b'.push v).map GenEq.resB ∧
+        (b'.high.len < 2^63 → GenFn.EliasFanoBuilder.build c b' = .ok (EF.ofBuilder c b')) := by
   refine ⟨GenEq.efb_new_eq c u m hu hsz, fun b hb hist => ?_⟩
   have hm : m ≠ 0 := by
     intro h0; subst h0; rw [new_zero] at hb; cases hb
   have hf : GenEq.Fits b := GenEq.fits_new u m b hu hb (by have := hsz hm; omega)
   obtain ⟨e1, e2⟩ := GenEq.genRun_eq c hist b hf
-  exact ⟨e1, fun b' r hr vs v => ⟨GenEq.efb_extend_eq c b' (e2 b' r hr) vs, GenEq.efb_push_eq c b' (e2 b' r hr) v⟩⟩
+  exact ⟨e1, fun b' r hr vs v => ⟨GenEq.efb_extend_eq c b' (e2 b' r hr) vs, GenEq.efb_push_eq c b' (e2 b' r hr) v,
+    fun hl => GenEq.ef_build_eq c b' hl⟩⟩
 
-/-- configuration independence of the generated builder: `new`, any push history, then any `extend` or `push` -/
-theorem config_independent (c c' : Cfg) (u m : Nat) (hu : u < 2^64)
-    (hsz : m ≠ 0 → m + (u >>> lowLenOf u m) + 2 + 64 < 2^64) :
-    GenFn.EliasFanoBuilder.new c u m = GenFn.EliasFanoBuilder.new c' u m ∧
-    ∀ b, GenFn.EliasFanoBuilder.new c u m = .ok (RS.Res.ok b) → ∀ hist,
-      genRun c b hist = genRun c' b hist ∧
-      ∀ b' r, genRun c b hist = .ok (b', r) → ∀ vs v,
-        GenFn.EliasFanoBuilder.extend c b' vs = GenFn.EliasFanoBuilder.extend c' b' vs ∧
-        GenFn.EliasFanoBuilder.push c b' v = GenFn.EliasFanoBuilder.push c' b' v := by
-  obtain ⟨n1, g1⟩ := generated_eq_model c u m hu hsz
-  obtain ⟨n2, g2⟩ := generated_eq_model c' u m hu hsz
-  refine ⟨by rw [n1, n2], fun b hb hist => ?_⟩
-  have hb' : EFB.new u m = some b := by
-    rw [n1] at hb
-    cases hnew : EFB.new u m with
-    | none => rw [hnew] at hb; cases hb
-    | some b1 =>
-      rw [hnew] at hb
-      injection hb with hb; injection hb with hb
-      rw [hb]
-  obtain ⟨r1, s1⟩ := g1 b hb' hist
-  obtain ⟨r2, s2⟩ := g2 b hb' hist
-  refine ⟨by rw [r1, r2], fun b' r hr vs v => ?_⟩
-  rw [r1] at hr
-  cases hrun : EFB.run b hist with
-  | error e => rw [hrun] at hr; cases hr
-  | ok p =>
-    rw [hrun] at hr
-    injection hr with hr; injection hr with hr1 hr2
-    have hp : EFB.run b hist = .ok (b', p.2) := by rw [hrun, ← hr1]
-    obtain ⟨x1, y1⟩ := s1 b' p.2 hp vs v
-    obtain ⟨x2, y2⟩ := s2 b' p.2 hp vs v
-    exact ⟨by rw [x1, x2], by rw [y1, y2]⟩
+/-- configuration independence of the generated builder: `new`, any push history, then `extend`, `push`, and the
+    sequence `build()` + `enable_rank()` returns with what it reads back -/
+theorem config_independent (c c' : Cfg) (u m : Nat) (hist : List Nat) (hm : m ≠ 0) (hu : u < 2^64)
+    (hsz : m + (u >>> lowLenOf u m) + 2 + 64 < 2^64) :
+    ∃ b0 b' r, GenFn.EliasFanoBuilder.new c u m = .ok (RS.Res.ok b0) ∧ GenFn.EliasFanoBuilder.new c' u m = .ok (RS.Res.ok b0) ∧
+      genRun c b0 hist = .ok (b', r) ∧ genRun c' b0 hist = .ok (b', r) ∧
+      (∀ vs, GenFn.EliasFanoBuilder.extend c b' vs = GenFn.EliasFanoBuilder.extend c' b' vs) ∧
+      (∀ v, GenFn.EliasFanoBuilder.push c b' v = GenFn.EliasFanoBuilder.push c' b' v) ∧
+      (m + (u >>> lowLenOf u m) + 2 < 2^63 →
+        ∃ e0 e, GenFn.EliasFanoBuilder.build c b' = .ok e0 ∧ GenFn.EliasFanoBuilder.build c' b' = .ok e0 ∧
+          GenFn.EliasFano.enable_rank c e0 = .ok e ∧ GenFn.EliasFano.enable_rank c' e0 = .ok e ∧
+          (∀ k, GenFn.EliasFano.select c e k = GenFn.EliasFano.select c' e k) ∧
+          (∀ k, GenFn.EliasFano.select c e0 k = GenFn.EliasFano.select c' e0 k)) := by
+  obtain ⟨b0, b', g', hn, hr⟩ := GenEq.ef_hist_good u m hist hm hu hsz
+  refine ⟨b0, b', _, hn c, hn c', hr c, hr c', fun vs => ?_, fun v => ?_, fun h63 => ?_⟩
+  · rw [GenEq.efb_extend_eq c b' g'.fits vs, GenEq.efb_extend_eq c' b' g'.fits vs]
+  · rw [GenEq.efb_push_eq c b' g'.fits v, GenEq.efb_push_eq c' b' g'.fits v]
+  · obtain ⟨e0, e, k1, k2, j1, j2, A, A', _, _, _, _, s, s'⟩ := GenEq.ef_good_built c c' u m b' _ g' hu h63
+    exact ⟨e0, e, k1, j1, k2, j2, fun k => by rw [A.select, A'.select], fun k => by rw [s, s']⟩
 
 /-! ### non-vacuity -/
--- the size hypothesis on a concrete instance; a history with all three kinds of rejection
+-- the size hypotheses on a concrete instance; a history with all three kinds of rejection
 -- (5 after 7: decreasing; 12: outside the universe; the last 9: capacity 3 exhausted)
-example : (3 : Nat) + (10 >>> lowLenOf 10 3) + 2 + 64 < 2^64 := by decide
+example : (3 : Nat) + (10 >>> lowLenOf 10 3) + 2 + 64 < 2^64 ∧ (3 : Nat) + (10 >>> lowLenOf 10 3) + 2 < 2^63 := by decide
 example : verdicts 10 3 [] [2, 7, 5, 12, 7, 9] = [true, true, false, false, true, false] ∧
     accepted 10 3 [] [2, 7, 5, 12, 7, 9] = [2, 7, 7] := by decide
 -- closed evaluation of the generated functions on that history (checked build)
@@ -167,4 +161,11 @@ example : ((GenFn.EliasFanoBuilder.new ⟨true, false⟩ 10 3).bind fun r => (RS
       (genRun ⟨true, false⟩ b0 [2, 7, 5, 12, 7, 9]).bind fun r => .ok (r.2, r.1.pos, r.1.last))
     = .ok ([.ok (), .ok (), .err, .err, .ok (), .err], 3, 7) := by rfl
 example : GenFn.EliasFanoBuilder.new ⟨false, true⟩ 10 0 = .ok RS.Res.err := by rfl
+-- … and of the generated `build()` and read-back (`Except` has no `DecidableEq`, `Option` has)
+example : ((GenFn.EliasFanoBuilder.new ⟨true, false⟩ 10 3).bind fun r => (RS.unwrapRes r).bind fun b0 =>
+      (genRun ⟨true, false⟩ b0 [2, 7, 5, 12, 7, 9]).bind fun r => (GenFn.EliasFanoBuilder.build ⟨true, false⟩ r.1).bind fun e0 =>
+      (GenFn.EliasFano.select ⟨true, false⟩ e0 0).bind fun x0 => (GenFn.EliasFano.select ⟨true, false⟩ e0 1).bind fun x1 =>
+      (GenFn.EliasFano.select ⟨true, false⟩ e0 2).bind fun x2 => (GenFn.EliasFano.select ⟨true, false⟩ e0 3).bind fun x3 =>
+      .ok (GenFn.EliasFano.len e0, GenFn.EliasFano.universe e0, [x0, x1, x2, x3])).toOption
+    = some (3, 10, [some 2, some 7, some 7, none]) := by decide +kernel
 end Sucds.C16Gen
